@@ -597,6 +597,23 @@ theorem c12_source_shape :
     KG.Gen.C12.tokenCacheTTLArgs = ["a.tokenSuccessCacheTTL", "a.tokenFailureCacheTTL"] := by
   decide
 
+/-- position of a filter in the shipped chain (innermost = 0); `none` unless it occurs exactly once -/
+def chainPos (n : String) : Option Nat :=
+  if KG.Gen.C12.proxyChain.count n = 1 then KG.Gen.C12.proxyChain.idxOf? n else none
+
+/-- the order of stages `Macro.pipe` (and `Pipeline`) assume is the order the shipped wiring builds: the request is
+    bound (WithUpstreamInfo, after WithExtraRequestInfo made the Hostname) BEFORE it is authenticated, the impersonation
+    check runs after authentication, the dispatcher last. (The harness drives the chain built by the shipped
+    `buildProxyHandlerChainFunc` itself; this pins the same fact for the proofs.) -/
+theorem c12_chain_order :
+    (do let d ← chainPos "WithDispatcher"
+        let i ← chainPos "WithNoLoggingImpersonation"
+        let a ← chainPos "WithAuthentication"
+        let u ← chainPos "WithUpstreamInfo"
+        let e ← chainPos "WithExtraRequestInfo"
+        pure (decide (d < i) && decide (i < a) && decide (a < u) && decide (u < e))) = some true := by
+  decide
+
 /-! ## non-vacuity: concrete histories (kernel-evaluated)
 
 Two live clusters: instance 0 accepts every token as user "A" and allows everything, instance 1 rejects / denies.
@@ -701,7 +718,7 @@ theorem c12_pipeline_refuted_without_dispatch_binding :
     impersonation check and before the dispatcher: still proxied to 0, the cluster that authenticated and authorized -/
 example : ((runMacros (fromSource exEnv) ⟨init, [], []⟩
       [.ev (.setEndpoint 0 [101] true false), .ev (.setEndpoint 1 [102] true false), .ev (.addWithKey hostX 0),
-       .pipe hostX [116] (some exAttrs) [] [] [] [] [] [.ev (.addWithKey hostX 1)]]).outs.map
+       .pipe hostX [116] (some [97]) [] [] [] [] [] [.ev (.addWithKey hostX 1)]]).outs.map
         (fun o => match o with | .disp d => (d.upstream, d.proxied) | _ => (none, none))) =
     [(none, none), (none, none), (some 0, some 0)] := by decide
 
